@@ -52,7 +52,7 @@ def func_hashes(names):
 
 class Job:
     def __init__(self, mod, params=None, label=None, max_paths=None,
-                 need_outcomes=(), timeout_s=None, validate=200):
+                 need_outcomes=(), timeout_s=None, validate=200, procs=None):
         self.mod = mod if '.' in mod else 'symdd.harness.' + mod
         self.params = params or {}
         self.label = label or (mod + str(sorted(self.params.items())))
@@ -60,6 +60,7 @@ class Job:
         self.need_outcomes = tuple(need_outcomes)
         self.timeout_s = timeout_s
         self.validate = validate
+        self.procs = procs
 
 
 class Report:
@@ -105,14 +106,33 @@ def _replay_file(pid, case, res):
     return p
 
 
-def run_job(rep, job, known):
+def explore_job(job):
+    deadline = time.time() + job.timeout_s if job.timeout_s else None
+    return engine.explore(job.mod, job.params, max_paths=job.max_paths,
+                          deadline=deadline, procs=job.procs)
+
+
+def run_jobs(rep, jobs, known, concurrent=3, echo=True):
+    """Explore up to `concurrent` jobs at a time (each on its own process
+    pool); post-process in order."""
+    import concurrent.futures as cf
+    with cf.ThreadPoolExecutor(max_workers=concurrent) as ex:
+        futs = [ex.submit(explore_job, j) for j in jobs]
+        for job, fut in zip(jobs, futs):
+            results, stats = fut.result()
+            j = run_job(rep, job, known, results, stats)
+            if echo:
+                print(f'  job {j["label"]}: paths={j["paths"]} queries={j["queries"]} '
+                      f'wall={j["wall_s"]}s outcomes={j["outcomes"]}', flush=True)
+
+
+def run_job(rep, job, known, results=None, stats=None):
     hmod = importlib.import_module(job.mod)
     rep.functions.update(getattr(hmod, 'FUNCTIONS', []))
     rep.note(assumptions=getattr(hmod, 'ASSUMPTIONS', []),
              cuts=getattr(hmod, 'CUTS', []), stubs=getattr(hmod, 'STUBS', []))
-    deadline = time.time() + job.timeout_s if job.timeout_s else None
-    results, stats = engine.explore(job.mod, job.params, max_paths=job.max_paths,
-                                    deadline=deadline)
+    if results is None:
+        results, stats = explore_job(job)
     jrec = dict(label=job.label, harness=job.mod.split('.')[-1], params=job.params,
                 **stats)
     outcomes = {}
@@ -161,6 +181,24 @@ def run_job(rep, job, known):
     for oc in job.need_outcomes:
         if not any(k == oc or k.startswith(oc) for k in outcomes):
             rep.inconclusive.append(f'{job.label}: outcome class "{oc}" never reached (vacuity guard)')
+    # ---- 7.3 replay of counterexamples
+    seen = set()
+    for g, out in cex:
+        case = g.get('case')
+        if case is None or 'extract_error' in (case or {}):
+            rep.inconclusive.append(f'{job.label}: goal {g["name"]} sat but no model extracted: {case}')
+            continue
+        sig = json.dumps(case, sort_keys=True)
+        if sig in seen:
+            continue
+        seen.add(sig)
+        case = dict(case, goal=g['name'])
+        try:
+            res = hmod.replay(case)
+        except Exception:
+            rep.inconclusive.append(f'{job.label}: replay of counterexample crashed: {traceback.format_exc()[-800:]}')
+            continue
+        _report_cex(rep, job, g, case, res, known)
     # ---- 7.2 validation of the encoding on path witnesses
     rnd = random.Random(rep.seed)
     if len(wits) > job.validate:
@@ -203,24 +241,6 @@ def run_job(rep, job, known):
                                 model=out['witness']))
     rep.totals['validated'] += nval
     jrec['validated'] = nval
-    # ---- 7.3 replay of counterexamples
-    seen = set()
-    for g, out in cex:
-        case = g.get('case')
-        if case is None or 'extract_error' in (case or {}):
-            rep.inconclusive.append(f'{job.label}: goal {g["name"]} sat but no model extracted: {case}')
-            continue
-        sig = json.dumps(case, sort_keys=True)
-        if sig in seen:
-            continue
-        seen.add(sig)
-        case = dict(case, goal=g['name'])
-        try:
-            res = hmod.replay(case)
-        except Exception:
-            rep.inconclusive.append(f'{job.label}: replay of counterexample crashed: {traceback.format_exc()[-800:]}')
-            continue
-        _report_cex(rep, job, g, case, res, known)
     rep.jobs.append(jrec)
     return jrec
 
